@@ -138,8 +138,16 @@ class Material(MaterialFile):
             ), axis=1
         )
 
-        # Sort by similarity score in ascending order
-        dfi = dfi.sort_values(by='similarity_score').reset_index(drop=True)
+        # Sort by similarity score in ascending order; among equal scores an
+        # entry whose name matches with its case comes first (BAF2 the glass
+        # before BaF2 the crystal), otherwise the catalogue order is kept
+        dfi['case_mismatch'] = dfi.apply(
+            lambda row: 0 if self.name in (row['name'], row['category_name'])
+            else 1, axis=1
+        )
+        dfi = dfi.sort_values(by=['similarity_score', 'case_mismatch'],
+                              kind='stable')
+        dfi = dfi.drop(columns='case_mismatch').reset_index(drop=True)
 
         # Warning if no exact matches found
         if dfi['similarity_score'].iloc[0] > 0:
